@@ -16,13 +16,13 @@ fi
 # stub executables named like the commands delta wraps
 mkdir -p build/fixtures/bin
 if [ -x build/fixtures/stubcmd ]; then
-  cp build/fixtures/stubcmd build/fixtures/bin/git
-  cp build/fixtures/stubcmd build/fixtures/bin/rg
+  # (copy, then rename: a stub that is still running somewhere must not make the installation fail)
+  for n in git rg; do cp build/fixtures/stubcmd build/fixtures/bin/.$n.new && mv -f build/fixtures/bin/.$n.new build/fixtures/bin/$n; done
 fi
 # stub pagers: a directory with `less` (to be put first in PATH) and differently named pagers
 mkdir -p build/fixtures/pagers
 if [ -x build/fixtures/stubpager ]; then
-  for n in less mypager otherpager batpager envpager; do cp build/fixtures/stubpager build/fixtures/pagers/$n; done
+  for n in less mypager otherpager batpager envpager; do cp build/fixtures/stubpager build/fixtures/pagers/.$n.new && mv -f build/fixtures/pagers/.$n.new build/fixtures/pagers/$n; done
 fi
 python3 - <<'PY'
 import sys
